@@ -272,6 +272,8 @@ fn main() {
             st.histories += 1;
         }
     });
+    let parked = parked_owner_histories(&mut rep.violations);
+    rep.set("parked_owner_histories", parked);
     let mut all_states = BTreeSet::new();
     let (mut h, mut t, mut ap) = (1u64, 0u64, 0u64);
     for s in states {
@@ -290,6 +292,136 @@ fn main() {
     rep.sample(json!({"history": ["MkGuard", "MkForce", "Mutate", "DropOwner", "DropForce(0)", "DropGuard(0)"], "expected": "appended once at DropForce(0) with a=1"}));
     rep.assume("flush guards and force-flush guards can only be created through the owner (the handle derefs to the entry, not to the wrapper)");
     rep.finish();
+}
+
+/// Owners parked in a caller-side `Option` through `Instrumented::split_metrics_to`: writing a
+/// second owner into the occupied target is the drop point of the first one, and the parked owner
+/// is the one mutated and dropped later. Every combination of what each of the two owners has
+/// alive when it is parked (nothing / a second reference / a flush guard / a force-flush guard),
+/// the leftovers dropped afterwards in both orders. Entry i is created with a = 10 * i.
+fn parked_owner_histories(v: &mut Violations) -> u64 {
+    use metrique::instrument::Instrumented;
+    #[derive(Clone, Copy, Debug, PartialEq)]
+    enum Extra {
+        Nothing,
+        /// owner 1: a second flush guard taken through the parked owner; owner 2: leaves the
+        /// target as a handle (a handle consumes the owner)
+        Second,
+        Guard,
+        Force,
+    }
+    enum Kept {
+        Nothing,
+        Handle(AppendAndCloseOnDropHandle<Work, Sink>),
+        Guard(FlushGuard),
+        Force(ForceFlushGuard),
+    }
+    #[derive(Clone, Copy, Debug)]
+    enum Act {
+        Park1,
+        Park2,
+        Mutate,
+        DropKept1,
+        DropKept2,
+        DropTarget,
+    }
+    let all = [Extra::Nothing, Extra::Second, Extra::Guard, Extra::Force];
+    let mut n = 0;
+    for e1 in all {
+        for e2 in all {
+            for first_leftover_first in [true, false] {
+                n += 1;
+                let sink: Sink = VecEntrySink::new();
+                let mut target: Option<AppendAndCloseOnDrop<Work, Sink>> = None;
+                let (mut k1, mut k2) = (Kept::Nothing, Kept::Nothing);
+                // (a force-flush guard that is merely alive delays nothing)
+                let o1_waits = matches!(e1, Extra::Second | Extra::Guard);
+                // owner 2 is gone from the target and waits for what it kept
+                let mut pending2 = false;
+                let (mut steps, mut expect, mut seen): (Vec<String>, Vec<u64>, Vec<u64>) = (vec![], vec![], vec![]);
+                let mut bad: Option<String> = None;
+                let tail = if first_leftover_first { [Act::DropKept1, Act::DropTarget, Act::DropKept2] } else { [Act::DropTarget, Act::DropKept2, Act::DropKept1] };
+                for act in [Act::Park1, Act::Park2, Act::Mutate].into_iter().chain(tail) {
+                    match act {
+                        Act::Park1 | Act::Park2 => {
+                            let (i, e) = if matches!(act, Act::Park1) { (1, e1) } else { (2, e2) };
+                            let mut o = Work::default().append_on_drop(sink.clone());
+                            o.a = 10 * i;
+                            let kept = match e {
+                                Extra::Guard => Kept::Guard(o.flush_guard()),
+                                Extra::Force => Kept::Force(o.force_flush_guard()),
+                                _ => Kept::Nothing,
+                            };
+                            let occupied = target.is_some();
+                            let () = Instrumented::from_parts((), o).split_metrics_to(&mut target);
+                            steps.push(format!("owner{i} (a={}, keeps {e:?}) split_metrics_to({} target)", 10 * i, if occupied { "the occupied" } else { "the empty" }));
+                            if i == 1 {
+                                k1 = if e1 == Extra::Second { Kept::Guard(target.as_ref().unwrap().flush_guard()) } else { kept };
+                            } else {
+                                k2 = kept;
+                                // owner 1 was dropped by the second split
+                                if !o1_waits {
+                                    expect.push(10);
+                                }
+                            }
+                        }
+                        Act::Mutate => {
+                            // the parked owner is owner 2: a mutation through the target is owner 2's
+                            match target.as_mut() {
+                                Some(t) => t.a += 1,
+                                None => bad = bad.or(Some("the target is empty after two splits".into())),
+                            }
+                            steps.push("target.a += 1".into());
+                            if e2 == Extra::Second {
+                                if let Some(t) = target.take() {
+                                    k2 = Kept::Handle(t.handle());
+                                    steps.push("owner2 leaves the target as a handle".into());
+                                }
+                            }
+                        }
+                        Act::DropTarget => {
+                            drop(target.take());
+                            steps.push("drop the target".into());
+                            if matches!(e2, Extra::Nothing | Extra::Force) {
+                                expect.push(21);
+                            } else {
+                                pending2 = true;
+                            }
+                        }
+                        Act::DropKept1 => {
+                            drop(std::mem::replace(&mut k1, Kept::Nothing));
+                            steps.push(format!("drop what owner1 kept ({e1:?})"));
+                            if o1_waits {
+                                expect.push(10);
+                            }
+                        }
+                        Act::DropKept2 => {
+                            drop(std::mem::replace(&mut k2, Kept::Nothing));
+                            steps.push(format!("drop what owner2 kept ({e2:?})"));
+                            if pending2 {
+                                expect.push(21);
+                                pending2 = false;
+                            }
+                        }
+                    }
+                    for e in sink.drain() {
+                        seen.push(to_test_entry(&e).metrics["a"].as_u64());
+                    }
+                    if bad.is_none() && seen != expect {
+                        bad = Some(format!("after {:?}: the sink has seen a = {seen:?}, expected {expect:?}", steps.last().unwrap()));
+                    }
+                }
+                if let Some(what) = bad {
+                    v.add(
+                        "seq:parked-owner:split-into-occupied-target".to_string(),
+                        format!("owners parked with split_metrics_to: {what}"),
+                        json!({"history": steps, "seen": seen, "expected": expect}),
+                    );
+                }
+            }
+        }
+    }
+    n
 }
 
 fn explore_one(st: &mut St, hist: &mut Vec<Op>, model: &Model, op: Op) {
